@@ -13,3 +13,11 @@ Lemma two_pi_close : Rabs (Q2R q_two_pi - 2 * PI) <= 1 / 4000000000000000.
 Proof. rewrite Q2R_two_pi. interval with (i_prec 100). Qed.
 Lemma two_pi_pos : 6 < Q2R q_two_pi < 7.
 Proof. rewrite Q2R_two_pi. lra. Qed.
+
+(* conversion constants of Deg <-> Rad *)
+Lemma conv_constants_close :
+  Rabs (Q2R q_rad_per_deg - PI / 180) <= 1 / 100000000000000000 /\
+  Rabs (Q2R q_deg_per_rad - 180 / PI) <= 1 / 100000000000000.
+Proof.
+  unfold Q2R, q_rad_per_deg, q_deg_per_rad. simpl. split; interval with (i_prec 120).
+Qed.
